@@ -192,7 +192,27 @@ def any_kind_reuse(s, idx):
     ids = gen.Ids('Z%d.' % idx)
     kind = B.ALL_KINDS[idx % len(B.ALL_KINDS)]
     ro_txt = gen.rand_ro(rng, n_stories=rng.randint(3, 6), pool=pool)
-    msg_txt = gen.rand_message(rng, Abs(ro_txt), kind, 50, ids, pool=pool, shape_weights=(0.9, 0.05, 0.05, 0), selfref=0)
+    # a third of the cases name an unknown ID among the sources: the first merge is refused half way through its checks
+    sw = (0.9, 0.05, 0.05, 0) if rng.random() < 0.6 else (0.6, 0.4, 0, 0)
+    msg_txt = gen.rand_message(rng, Abs(ro_txt), kind, 50, ids, pool=gen.text_pool('notes'), shape_weights=sw, selfref=0)
+    if kind in ('EAStoryMove', 'roItemMoveMultiple', 'EAItemMove', 'EAStorySwap', 'EAItemSwap', 'roStoryMove') and rng.random() < 0.6:
+        # first source resolves, a later one does not: the first merge is refused after part of the message was resolved
+        st_ = Abs(ro_txt)
+        S_ = st_.story_ids
+        if kind in ('EAStoryMove', 'EAStorySwap', 'roStoryMove') and len(S_) >= 3:
+            a_, b_, t_ = rng.sample(S_, 3)
+            srcs = {'EAStoryMove': rng.choice([[a_, 'LATER-%d' % idx], [a_, b_, 'LATER-%d' % idx]]),
+                    'EAStorySwap': [a_, 'LATER-%d' % idx], 'roStoryMove': [a_]}[kind]
+            msg_txt = B.msg_doc(kind, 50, ids=srcs, target=('LATER-T%d' % idx if kind == 'roStoryMove' else rng.choice([t_, B.BLANK])))
+        elif kind in ('roItemMoveMultiple', 'EAItemMove', 'EAItemSwap'):
+            from ..canon import item_ids as _ii
+            cand = [(i_, [x for x in _ii(st) if x]) for i_, st in zip(S_, st_.stories)]
+            cand = [c_ for c_ in cand if len(set(c_[1])) == len(c_[1]) and len(c_[1]) >= 2]
+            if cand:
+                sid_, I_ = rng.choice(cand)
+                a_, t_ = rng.sample(I_, 2)
+                msg_txt = B.msg_doc(kind, 50, story_ref=sid_, ids=[a_, 'later-%d' % idx],
+                                    **({} if kind == 'EAItemSwap' else {'target': rng.choice([t_, B.BLANK])}))
     try:
         m = s.load(msg_txt)
     except Exception:
@@ -202,8 +222,16 @@ def any_kind_reuse(s, idx):
     for name in ('story', 'stories', 'item', 'items', 'source_story', 'target_story', 'source_stories'):
         try:
             v = getattr(m, name, None)
-            if isinstance(v, (list, tuple)):
-                [getattr(x, 'id', None) for x in v]
+            for x in (v if isinstance(v, (list, tuple)) else [v]):
+                # every read accessor of the exposed wrappers (reading must never write)
+                for acc_ in ('id', 'slug', 'items', 'duration', 'offset', 'start_time', 'end_time', 'script', 'body',
+                             'type', 'object_id', 'mos_id', 'note'):
+                    try:
+                        r_ = getattr(x, acc_, None)
+                        if isinstance(r_, list):
+                            [getattr(y, 'id', None) for y in r_]
+                    except Exception:
+                        pass
         except Exception:
             pass
     try:
@@ -217,10 +245,34 @@ def any_kind_reuse(s, idx):
         s.custom_violation('message-modified-by-reading-it', {'kind': kind}, wit, msg_kind=kind, status='read')
     ro_a = s.load(ro_txt)
     ro_b = s.load(ro_txt)
-    ro_a, ea, _ = s.add(ro_a, m)
-    ro_b, eb, _ = s.add(ro_b, m)
     ro_c = s.load(ro_txt)
+    # when the message names unknown sources, the second and third running orders get those elements first,
+    # so that the same object - refused on the first one - now meets a running order where everything resolves
+    from ..spec import interpret
+    from xml.etree import ElementTree as ET
+    mi = interpret(ET.fromstring(msg_txt))
+    known_s = set(Abs(ro_txt).story_ids)
+    fix = []
+    if mi.level == 'story':
+        for r_ in list(mi.sources) + [mi.target]:
+            if r_[0] == 'id' and r_[1] not in known_s:
+                fix.append(B.msg_doc('roStoryAppend', 40, carried=[gen.simple_story(r_[1], 1)]))
+    elif mi.level == 'item' and mi.story_ref[0] == 'id' and mi.story_ref[1] in known_s:
+        from ..canon import item_ids as _ii
+        have = set(_ii(Abs(ro_txt).story(mi.story_ref[1])))
+        for r_ in list(mi.sources) + [mi.target]:
+            if r_[0] == 'id' and r_[1] not in have:
+                fix.append(B.msg_doc('roItemInsert', 40, story_ref=mi.story_ref[1], target=B.BLANK, carried=[B.item(r_[1], 'x')]))
+                have.add(r_[1])
+    ro_a, ea, _ = s.add(ro_a, m)
+    for fx in fix:
+        ro_b, _e, _w = s.add(ro_b, s.load(fx))
+        ro_c, _e, _w = s.add(ro_c, s.load(fx))
+    ro_b, eb, _ = s.add(ro_b, m)
     ro_c, ec, _ = s.add(ro_c, s.load(msg_txt))
+    if fix:
+        ea = eb      # the first running order was a different state on purpose: compare re-use (b) with fresh (c) only
+        ro_a = ro_b
     s.drain_and_judge(None, {'any-kind-reuse': idx})
     same = str(ro_a) == str(ro_b) == str(ro_c) and type(ea) is type(eb) is type(ec)
     s.note_sig((kind, 'any', 'split' if msg_txt.count('<element_source') > 1 else 'plain', ok_read, same))
